@@ -156,6 +156,8 @@ class TypeGen:
         if not hashable:
             kinds += ["none"]
             kinds += ["any"] if self.cfg["any"] else []
+        elif self.cfg.get("any_in_sets") and self.cfg["any"]:
+            kinds += ["any"]  # Set[Any]: supported type, whose JSON elements may be unhashable (opt-in: C03)
         if self.cfg["leaf_kinds"]:
             kinds = [x for x in kinds if x in self.cfg["leaf_kinds"]] or ["int"]
         k = pick(d, kinds)
@@ -726,6 +728,9 @@ def valid(draw, prog: dict, t: dict, dyn: str = "id", fuel: int = 3, c: Optional
         else:
             n = draw(st.integers(lo, max(lo, min(hi if hi is not None else 3, 3))))
         out = [valid(draw, prog, t["of"], dyn, fuel - (0 if fuel > 0 else 0), None, stack) for _ in range(n)]
+        if k in ("set", "frozenset") and M.strip(t["of"], prog)["k"] == "any":
+            # (cfg any_in_sets) conforming data of a Set[Any] have hashable elements; arrays / objects come from the mutants
+            out = [x if not isinstance(x, (list, dict)) else pick(draw, [0, "a", None, True, 1.5]) for x in out]
         if (c or {}).get("unique") or k in ("set", "frozenset"):
             uniq, seen = [], set()
             for x in out:
